@@ -389,12 +389,13 @@ func c10TokStr(s string) string {
 	return strings.NewReplacer(" ", "+", "\t", "+", "\n", "+").Replace(s)
 }
 
-// c10TokCron keeps the crontab text exact: only the blank is replaced (by `␣`).
+// c10TokCron keeps the crontab text exact: only the characters the line protocol cannot carry are
+// replaced — blank by `␣`, tab by `⇥`, newline by `↵`, carriage return by `↩` (the driver maps them back).
 func c10TokCron(s string) string {
 	if s == "" {
 		return "_"
 	}
-	return strings.ReplaceAll(s, " ", "␣")
+	return strings.NewReplacer(" ", "␣", "\t", "⇥", "\n", "↵", "\r", "↩").Replace(s)
 }
 func c10TokList(xs []string) string {
 	if len(xs) == 0 {
